@@ -462,8 +462,12 @@ class _KwCalls(ast.NodeTransformer):
             names = SIGS[n.func.id]
             kws = [ast.keyword(arg=names[i], value=a) for i, a in enumerate(n.args)] + list(n.keywords)
             if len({k.arg for k in kws}) == len(kws):
+                # parameters are identified by their POSITION in the callee's signature (`#2`), so renaming a parameter of a private helper
+                # together with its keyword call sites does not change the digest of the callers; **kw and unknown keywords keep their name
+                def pos(k):
+                    return '#%d' % names.index(k.arg) if k.arg in names else k.arg
                 n.args = []
-                n.keywords = sorted(kws, key=lambda k: (k.arg is None, str(k.arg)))
+                n.keywords = sorted([ast.keyword(arg=pos(k), value=k.value) for k in kws], key=lambda k: (k.arg is None, str(k.arg)))
         return n
 
 
@@ -1280,7 +1284,8 @@ def inline_new_temps(fn, r, stats, key):
     defs_to_lambdas(fn, r, key)
     """A local name that the reference does not have, assigned once from a side-effect-free expression whose operands are not reassigned
     afterwards, is a name for that expression: substitute it back (the inverse of "introduce explaining variable")."""
-    ref_names = set(n for o in r['names'] for n in o)
+    # names of the reference function's OWN scope (scope 0): a reference comprehension variable called `row` does not make a new local `row` old
+    ref_names = set(r['names'][0]) if r['names'] else set()
     ref_names |= {n.split('\x01')[0] for n in ref_names}
     params = {a.arg for a in fn.args.posonlyargs + fn.args.args + fn.args.kwonlyargs} | {x.arg for x in (fn.args.vararg, fn.args.kwarg) if x}
     if not [n for n in fn_scope_locals(fn) if n not in ref_names and n not in params]:
@@ -1449,6 +1454,18 @@ def coalesce_bound_copies(fn, ref_names, params):
 
 def _inline_new_temps(fn, ref_names, params, stats, key):
     coalesced = coalesce_copies(fn, ref_names, params) + coalesce_bound_copies(fn, ref_names, params)
+    # a new local that shares its spelling with a comprehension variable / lambda parameter somewhere in the function: give the function-scope
+    # variable a spelling of its own, so that the checks below (one store, loads after it) speak about one variable
+    inner_bound = set()
+    for n in ast.walk(fn):
+        if isinstance(n, (ast.ListComp, ast.SetComp, ast.DictComp, ast.GeneratorExp)):
+            for g in n.generators:
+                inner_bound |= {m.id for m in ast.walk(g.target) if isinstance(m, ast.Name)}
+        elif isinstance(n, ast.Lambda):
+            inner_bound |= {a.arg for a in n.args.args + n.args.kwonlyargs}
+    clash = {v: v + '__t' for v in fn_scope_locals(fn) if v in inner_bound and v.split('\x01')[0] not in ref_names and v not in params}
+    if clash:
+        rename_locals(fn, {0: clash})
     own = fn_scope_locals(fn)
     cand = [n for n in own if n.split('\x01')[0] not in ref_names and n not in params]
     done = 0
@@ -1523,6 +1540,9 @@ def _inline_new_temps(fn, ref_names, params, stats, key):
                 if isinstance(n, ast.AugAssign) and isinstance(n.target, ast.Name) and n.target.id == v:
                     handle = True
             if handle:
+                continue
+            # ... a conditional value used several times is not substituted (it would duplicate the decision into every use) ...
+            if len(loads) > 1 and any(isinstance(n, ast.IfExp) for n in ast.walk(st.value)):
                 continue
             # ... and a value used several times must not be a fresh mutable object (two uses would be two objects)
             if len(loads) > 1 and any(isinstance(n, (ast.List, ast.Dict, ast.Set, ast.ListComp, ast.DictComp, ast.SetComp, ast.GeneratorExp)) or
